@@ -1,8 +1,10 @@
 import Driver.Util
 import Driver.Suites.Blocks
+import Driver.Suites.Picker
 /-! Table of suites known to the driver.  One line per suite (merge=union friendly). -/
 namespace Driver
 def registry : List Suite := [
   Suites.Blocks.suite,
+  Suites.Picker.suite,
 ]
 end Driver
